@@ -1,6 +1,6 @@
 import json,sys
 pid=sys.argv[1]; tag=sys.argv[2]
-p=json.load(open(f'/tmp/mut/prop_{pid}.json'))
+p=[json.loads(l) for l in open('/verif/properties.jsonl') if l.strip() and json.loads(l)['id']==pid][0]
 d=f"{pid}{tag}"
 print(f"""You are working in a scratch git worktree of the Go project minekube/gate (module go.minekube.com/gate, a Minecraft reverse proxy) at /tmp/wt/{d}. The sandbox has NO network. Before every go command run: `export GOFLAGS=-mod=mod GOPROXY=off` (do NOT set GOSUMDB or GOTOOLCHAIN). Work ONLY inside /tmp/wt/{d} and /tmp/mut/{d}; never read or write /verif or /repo. Do NOT use `git stash` (it is shared between worktrees).
 
